@@ -445,6 +445,17 @@ func ruleAlloc(c *Ctx) *RuleResult {
 		verdict, detail := judgeAlloc(p, s.f, s.size, s.ins, 0)
 		key := fnKey(s.f) + ":" + s.what
 		desc := fmt.Sprintf("%s %s [%s]: %s", fnKey(s.f), s.what, p.InstrPos(s.ins), detail)
+		// sign: a size that is the result of arithmetic on program-chosen values can
+		// have wrapped; make/Grow/Repeat panic on a negative count
+		if why := arithmeticOnUnbounded(p, s.f, s.size, s.ins); why != "" {
+			if provedNonNegative(p, s.f, s.size, s.ins, 0) {
+				r.ok(fmt.Sprintf("%s %s [%s]: computed size (%s) is tested for a negative (wrapped) result on every path", fnKey(s.f), s.what, p.InstrPos(s.ins), why))
+			} else if e, ok := allocSignTable[key]; ok {
+				r.ok("table: sign of " + key + " — " + e)
+			} else {
+				r.fail("possibly-negative-size:"+key, p.InstrPos(s.ins), fmt.Sprintf("%s %s: the size is computed by %s from values the program chooses and is not tested for a negative (overflowed) result before the allocation: make/Grow/Repeat panic on a negative count, and the panic is a Go run-time error no pcall catches", fnKey(s.f), s.what, why))
+			}
+		}
 		switch verdict {
 		case "ok":
 			r.ok(desc)
@@ -568,4 +579,192 @@ func flowsToReader(v ssa.Value) bool {
 		}
 	}
 	return false
+}
+
+// allocSignTable: computed sizes that cannot be negative for a reason outside the function's branch structure.
+var allocSignTable = map[string]string{
+	"(*runtime.cellPool).get:make([]runtime.Cell, n)":   "the size is Code.CellCount: counted up from zero by the code generator, and (*breader).readCode rejects negative counts in dumped chunks",
+	"(*runtime.valuePool).get:make([]runtime.Value, n)": "the size is Code.RegCount: counted up from zero by the code generator, and (*breader).readCode rejects negative counts in dumped chunks",
+	"lib/stringlib.UnpackString:make([]byte, n)":        "zi - u.j: zi starts at u.j and the scan loop only increments it",
+}
+
+// arithmeticOnUnbounded: the size is (a conversion of) an addition, multiplication
+// or shift with an operand that is not bounded by memory already held. Returns a
+// description of the operation, or "".
+func arithmeticOnUnbounded(p *Program, f *ssa.Function, size ssa.Value, at ssa.Instruction) string {
+	sv := stripConv(size)
+	if bt, ok := sv.Type().Underlying().(*types.Basic); ok && bt.Info()&types.IsUnsigned != 0 {
+		return ""
+	}
+	var leaves []sizeLeaf
+	classifyLeaves(p, f, sv, at, 0, map[ssa.Value]bool{}, &leaves)
+	n := 0
+	for _, lf := range leaves {
+		if lf.class != "bounded" {
+			n++
+		}
+	}
+	if n == 0 {
+		return ""
+	}
+	if b, ok := sv.(*ssa.BinOp); ok {
+		switch b.Op {
+		case token.ADD, token.MUL, token.SHL:
+			return "a signed " + b.Op.String()
+		}
+	}
+	return "no arithmetic (the value itself is chosen by the program or read from input)"
+}
+
+// provedNonNegative: every path to `at` has passed a test that excludes size < 0.
+// Parameters are resolved through all callers, variables captured by a closure
+// through the place the closure is made.
+func provedNonNegative(p *Program, f *ssa.Function, size ssa.Value, at ssa.Instruction, depth int) bool {
+	if depth > 3 {
+		return false
+	}
+	gc := newGuardCtx(f)
+	gc.ExcludeErrorPaths(at.Block())
+	target := stripConv(size)
+	same := func(v ssa.Value) bool {
+		v = stripConv(v)
+		if v == target {
+			return true
+		}
+		// two loads of the same single-assignment local
+		l1, ok1 := v.(*ssa.UnOp)
+		l2, ok2 := target.(*ssa.UnOp)
+		if ok1 && ok2 && l1.Op == token.MUL && l2.Op == token.MUL && l1.X == l2.X {
+			if al, ok := l1.X.(*ssa.Alloc); ok && singleStore(al) {
+				return true
+			}
+		}
+		return false
+	}
+	for _, e := range gc.MustEdges(at.Block()) {
+		rel, ok := e.Relation()
+		if !ok {
+			continue
+		}
+		a, b, op := rel.A, rel.B, rel.Op
+		if same(b) {
+			a, b, op = b, a, flipOp(op)
+		}
+		if !same(a) {
+			continue
+		}
+		k, isK := constInt(b)
+		if !isK {
+			continue
+		}
+		switch op {
+		case token.GEQ:
+			if k >= 0 {
+				return true
+			}
+		case token.GTR:
+			if k >= -1 {
+				return true
+			}
+		case token.EQL:
+			if k >= 0 {
+				return true
+			}
+		}
+	}
+	switch x := target.(type) {
+	case *ssa.Parameter:
+		idx := paramIndex(f, x)
+		n := p.CallGraph().Nodes[f]
+		if idx < 0 || n == nil || len(n.In) == 0 {
+			return false
+		}
+		for _, e := range n.In {
+			if e.Site == nil {
+				return false
+			}
+			args := e.Site.Common().Args
+			ai := idx
+			if e.Site.Common().IsInvoke() {
+				ai = idx - 1
+			}
+			if ai < 0 || ai >= len(args) {
+				return false
+			}
+			if !provedNonNegative(p, e.Caller.Func, args[ai], e.Site, depth+1) {
+				return false
+			}
+		}
+		return true
+	case *ssa.UnOp:
+		// a variable captured by reference: look where the closure is made
+		fv, ok := x.X.(*ssa.FreeVar)
+		if !ok || x.Op != token.MUL || f.Parent() == nil {
+			return false
+		}
+		fi := -1
+		for i, v := range f.FreeVars {
+			if v == fv {
+				fi = i
+			}
+		}
+		// nobody in the closure writes it
+		for _, ref := range *fv.Referrers() {
+			if st, ok := ref.(*ssa.Store); ok && st.Addr == fv {
+				return false
+			}
+		}
+		okAll, found := true, false
+		forEachInstr(f.Parent(), func(ins ssa.Instruction) {
+			mc, ok := ins.(*ssa.MakeClosure)
+			if !ok || mc.Fn != ssa.Value(f) || fi < 0 || fi >= len(mc.Bindings) {
+				return
+			}
+			found = true
+			al, ok := mc.Bindings[fi].(*ssa.Alloc)
+			if !ok || !singleStore(al) {
+				okAll = false
+				return
+			}
+			// a load of that local, as the guard in the parent sees it
+			var ld ssa.Value
+			for _, ref := range *al.Referrers() {
+				if u, ok := ref.(*ssa.UnOp); ok && u.Op == token.MUL {
+					ld = u
+					break
+				}
+			}
+			if ld == nil || !provedNonNegative(p, f.Parent(), ld, mc, depth+1) {
+				okAll = false
+			}
+		})
+		return found && okAll
+	}
+	return false
+}
+
+// singleStore: the local is assigned exactly once (so all its loads agree).
+func singleStore(al *ssa.Alloc) bool {
+	n := 0
+	for _, ref := range *al.Referrers() {
+		switch x := ref.(type) {
+		case *ssa.Store:
+			if x.Addr == ssa.Value(al) {
+				n++
+			}
+		case *ssa.MakeClosure:
+			// the closure may write it: check its free variable
+			fn, _ := x.Fn.(*ssa.Function)
+			for i, b := range x.Bindings {
+				if b == ssa.Value(al) && fn != nil && i < len(fn.FreeVars) {
+					for _, r2 := range *fn.FreeVars[i].Referrers() {
+						if st, ok := r2.(*ssa.Store); ok && st.Addr == ssa.Value(fn.FreeVars[i]) {
+							n++
+						}
+					}
+				}
+			}
+		}
+	}
+	return n == 1
 }
